@@ -37,8 +37,10 @@ static void verif_case(unsigned nodes, unsigned gnot, unsigned nnot, int match, 
 	void *r = hashtable_get(&t->map, k);
 
 	if (gi >= 0 && HG[gi].present) {
+#ifndef V_REMOVED
 		COVER(HG_n == 3 && gi == 2);
 		COVER(HG[gi].iters == 1);
+#endif
 		POST(r == HG[gi].value, "get returns the value of the latest put for that key");
 	} else {
 #ifdef V_REMOVED
